@@ -8,6 +8,7 @@ from common import case_line, parse_result
 from gen import rand_bounds
 
 LEVEL = "proof"
+BIG_IO = lambda a: "-c" in a        # which command lines of cases.rand_cli the large-input stream keeps
 CHARS = ["a", " ", "é", "€", "😎", "́", "-", "Z", " ", "中"]
 
 
